@@ -130,7 +130,10 @@ func run(c *lib.Ctx) error {
 	}
 	// at most 4 TLC workers / processes at a time (coordinator's rule for the shared machine)
 	sem := make(chan struct{}, 4)
+	var acqMu sync.Mutex // taking several tokens must be atomic, or holders of one token each deadlock
 	acquire := func(n int) {
+		acqMu.Lock()
+		defer acqMu.Unlock()
 		for i := 0; i < n; i++ {
 			sem <- struct{}{}
 		}
